@@ -1,36 +1,43 @@
 --------------------------- MODULE TraceStoreLock ---------------------------
-(* The forced two-writer schedule of harness/store_drv.flush_with_concurrent_add, as observed: a list of StoreLock actions in the   *)
-(* order they were seen to complete.  M: every observed action must be enabled in StoreLock with LockScope = "whole" (a hand-over  *)
-(* completing while another writer is between Acquire and Release is not).  P (C08): the blocks on disk at the end, as read back    *)
-(* through a fresh connection, are the ones StoreLock has.                                                                          *)
+(* Forced two-writer schedules of harness/store_drv (flush_with_concurrent_add: a second thread hands a block over while this thread's  *)
+(* flush is inside its disk write; flush_with_concurrent_flush: a second thread hands a block over AND flushes while this thread is     *)
+(* between BEGIN and COMMIT), as observed: a list of StoreLock actions in the order they were seen to complete.                          *)
+(* M: every observed action must be enabled in StoreLock with LockScope = "whole" (anything completing while another writer is between  *)
+(* Acquire and Release is not).  P: the blocks on disk at the end (fresh connection) are the ones handed over, and no writer saw an      *)
+(* SQL error.  Prop names the property on whose behalf the schedule was run (C08 store fidelity, C09 relay path, C12 found block).       *)
 EXTENDS StoreLock, Json, IOUtils, TLC, TLCExt
-Traces == JsonDeserialize(IOEnv.TRACE_FILE)       \* Seq([id, buffer0: Seq(Nat), disk0: Seq(Nat), events: Seq([a, w, b]), disk_end: Seq(Nat)])
+CONSTANTS Prop
+Traces == JsonDeserialize(IOEnv.TRACE_FILE)       \* Seq([id, buffer0, disk0, events: Seq([a, w, b]), disk_end, errors: Seq(STRING)])
 VARIABLES tid, l, done
-tv == << buffer, disk, lock, pc, copy, handed, nflush, tid, l, done >>
+tv == << buffer, disk, lock, pc, copy, handed, nflush, txn, sqlerror, tid, l, done >>
 Tr == Traces[tid]
 TInit == /\ tid \in 1..Len(Traces) /\ l = 1 /\ done = FALSE
          /\ buffer = Traces[tid].buffer0 /\ disk = Range(Traces[tid].disk0) /\ lock = None /\ pc = [w \in Writers |-> "idle"]
          /\ copy = [w \in Writers |-> << >>] /\ handed = Range(Traces[tid].buffer0) \cup Range(Traces[tid].disk0) /\ nflush = 0
+         /\ txn = None /\ sqlerror = FALSE
 Act(e) == CASE e.a = "add" -> Add(e.w, e.b)
             [] e.a = "acquire" -> Acquire(e.w)
             [] e.a = "write" -> Write(e.w)
+            [] e.a = "commit" -> Commit(e.w)
             [] e.a = "clear" -> Clear(e.w)
             [] e.a = "release" -> Release(e.w)
 Out(c) == PrintT(ToJson(<< "VERDICT", Tr.id, c, l >>))
+Stay == UNCHANGED << buffer, disk, lock, pc, copy, handed, nflush, txn, sqlerror >>
 TNext ==
   /\ ~done /\ UNCHANGED tid
   /\ IF l > Len(Tr.events)
-     THEN /\ UNCHANGED << buffer, disk, lock, pc, copy, handed, nflush, l >> /\ done' = TRUE
-          /\ Out(IF Range(Tr.disk_end) = disk THEN "ok"
-                 ELSE IF handed \ Range(Tr.disk_end) # {} THEN "C08:block_handed_over_during_a_flush_is_missing_after_the_next_flush"
-                 ELSE "C08:store_holds_blocks_never_handed_over")
+     THEN /\ Stay /\ UNCHANGED l /\ done' = TRUE
+          /\ Out(IF Tr.errors # << >> THEN Prop \o ":a_writer_of_the_block_store_got_an_error_while_another_writer_was_flushing"
+                 ELSE IF Range(Tr.disk_end) = disk THEN "ok"
+                 ELSE IF handed \ Range(Tr.disk_end) # {} THEN Prop \o ":block_handed_over_during_a_flush_is_missing_after_the_next_flush"
+                 ELSE Prop \o ":store_holds_blocks_never_handed_over")
      ELSE IF ENABLED Act(Tr.events[l])
      THEN Act(Tr.events[l]) /\ l' = l + 1 /\ UNCHANGED done
      ELSE \* the observed order is not a behaviour of StoreLock: report as drift and follow the observation (force the step's effect)
           /\ PrintT(ToJson(<< "DRIFT", Tr.id, l, "observed order of writer actions is not allowed by StoreLock (lock held from Acquire to Release): " \o Tr.events[l].a >>))
           /\ LET e == Tr.events[l] IN
-             IF e.a = "add" THEN /\ buffer' = Append(buffer, e.b) /\ handed' = handed \cup {e.b} /\ UNCHANGED << disk, lock, pc, copy, nflush >>
-             ELSE UNCHANGED << buffer, disk, lock, pc, copy, handed, nflush >>
+             IF e.a = "add" THEN /\ buffer' = Append(buffer, e.b) /\ handed' = handed \cup {e.b} /\ UNCHANGED << disk, lock, pc, copy, nflush, txn, sqlerror >>
+             ELSE Stay
           /\ l' = l + 1 /\ UNCHANGED done
 TSpec == TInit /\ [][TNext]_tv
 =============================================================================
